@@ -844,6 +844,18 @@ def plan(pid: str, tier: str, rng: random.Random) -> list[dict]:
                 for kind in ("before", "after", "on_failure"):
                     for ch in st.get(kind, []):
                         add(kind="policy", policy="starve:" + ch["ref"], spec=spec, name=name)
+    if pid in ("C09",):
+        # the handler paths that commit WITHOUT touching a stage (RunTask of a cancelled / finished / paused workflow,
+        # ContinueParentStage hand-offs): their pushes and the processed record of the consumed message are one commit too
+        for n in ("chain3", "multitask", "diamond", "syn_before_after"):
+            for at in range(1, 11):
+                add(kind="inject", what="cancel", at=at, spec=fam[n], name=n, policy=("redeliver" if at % 2 else "fifo"))
+                add(kind="inject", what="pause", at=at, unpause_at=at + 3, spec=fam[n], name=n, policy=("redeliver" if at % 2 else "fifo"),
+                    cancel_with_unpause=False)
+        for n in ("chain3", "multitask"):
+            for at in (3, 4, 6):
+                for k in range(0, 4):
+                    add(kind="pause_crash", at=at, k=k, spec=fam[n], name=n, policy="fifo")
     if pid in ("C03",):
         # the recovery sweep also decides which NOT_STARTED stages to (re)start: sweeps before every step of the join families,
         # and a crash at every second commit followed by recovery
